@@ -100,6 +100,13 @@ def libs(targets=('votca_tools', 'votca_csg')):
         if rc != 0:
             raise Undecided('cmake configure failed: ' + (err or out)[-800:])
     rc, out, err, w = run(['ninja', '-C', d, '-j', '16'] + list(targets), timeout=3000, mem_gb=1 << 10)
+    if rc not in (0, 1):      # ninja itself died (a build interrupted earlier can leave a truncated .ninja_deps/.ninja_log): drop its logs and build once more
+        for f in ('.ninja_deps', '.ninja_log'):
+            try:
+                os.remove(os.path.join(d, f))
+            except OSError:
+                pass
+        rc, out, err, w = run(['ninja', '-C', d, '-j', '16'] + list(targets), timeout=3000, mem_gb=1 << 10)
     if rc != 0:
         raise Undecided('native library build failed: ' + (out or err)[-1500:])
     ld = [os.path.join(d, 'tools/src/libtools'), os.path.join(d, 'csg/src/libcsg')]
